@@ -31,28 +31,50 @@ def run(chk):
             continue
         nforms += 1
         label = "<%s as Not>::not" % sty["s"]
-        for L in (0, 1, 3):
+        for L in (0, 1, 2, 3):
             key = "%s with %d cubes" % (label, L)
             try:
-                it = Interp(facts)
+                it = Interp(facts, max_paths=1024)
                 install_stubs(it, facts, C.elem)
                 st = State()
                 names = ["c%d" % j for j in range(L)]
                 v0 = C.mk(st, 4, names)
                 outs = it.call_body(bd, [arg_for(bd["sig"]["inputs"][0], v0, st)], st, {})
-                o, v, d = single_return(outs)
-                if o is not None:
-                    cubes = C.cubes(it, o.state, o.value)
-                    got = [elem_name(c) for c in cubes]
-                    extra = [c for c in cubes if elem_name(c) is None]
-                    if got[:L] != names and sorted(x for x in got if x) != names:
-                        v, d = REFUTED, "complement drops or changes cubes: %s" % got
-                    elif len(extra) != 1:
-                        v, d = REFUTED, "complement adds %d constant cubes (expected exactly one constant-one cube)" % len(extra)
-                    else:
-                        e = extra[0]
-                        ok = cm.pos(e).val == 0 and cm.neg(e).val == 0
-                        v, d = (PROVED, "") if ok else (REFUTED, "the appended cube is not the constant one")
+                v, d = PROVED, ""
+                nret = 0
+                for o in outs:
+                    s_, w_ = pc_status(o.pc)
+                    if s_ == "unsat":
+                        continue
+                    if o.kind != "return" or s_ != "sat":
+                        v, d = UNDECIDED, "path not decided"
+                        break
+                    nret += 1
+                    # on this path some cubes are known to be / not to be the constant one
+                    ones = {nm for nm in names if w_.get("is_one(%s)" % nm)}
+                    def val(nm):
+                        return ONE if nm in ones else val_atom(nm, "m")
+                    inp = ZERO
+                    for nm in names:
+                        inp = B.bxor(inp, val(nm))
+                    res = ZERO
+                    bad = None
+                    for c in C.cubes(it, o.state, o.value):
+                        nm = elem_name(c)
+                        if nm is not None:
+                            res = B.bxor(res, val(nm))
+                        elif cm.pos(c).val == 0 and cm.neg(c).val == 0:
+                            res = B.bxor(res, ONE)
+                        else:
+                            bad = "the complement contains a constant cube that is not the constant one"
+                    if bad:
+                        v, d = REFUTED, bad
+                        break
+                    if res != B.bnot(inp):
+                        v, d = REFUTED, "with %s the result denotes %s, the complement is %s" % (("cubes %s constant one" % sorted(ones)) if ones else "no constant-one cube", B.describe(res), B.describe(B.bnot(inp)))
+                        break
+                if v == PROVED and nret == 0:
+                    v, d = UNDECIDED, "no returning path"
             except Undecided as ex:
                 v, d = UNDECIDED, ex.cause
             chk.add("C15.N", key, v, d, where=where_of(bd))
